@@ -815,6 +815,12 @@ func printStats() {
 // becomes unreachable is pruned; with cutOneofs every oneof loses alternatives. Returns nil when the
 // schema package refuses the result.
 func olderWireSchema(r *rng.R, rootName string, cutOneofs bool) (ws *schema.WireSchema, desc string) {
+	return olderWireSchemaForce(r, rootName, cutOneofs, nil)
+}
+
+// olderWireSchemaForce: as olderWireSchema; the structs named in force are always cut, to at most
+// force[name] fields (used to cut inside the run of optional fields of a struct).
+func olderWireSchemaForce(r *rng.R, rootName string, cutOneofs bool, force map[string]int) (ws *schema.WireSchema, desc string) {
 	defer func() {
 		if recover() != nil {
 			ws = nil
@@ -832,10 +838,14 @@ func olderWireSchema(r *rng.R, rootName string, cutOneofs bool) (ws *schema.Wire
 	var cut []string
 	for _, n := range names {
 		st := cp.Structs[n]
-		if len(st.Fields) < 2 || !(r.Chance(1, 3) || (cutOneofs && st.OneOf)) {
+		fmax, forced := force[n]
+		if len(st.Fields) < 2 || !(forced || r.Chance(1, 3) || (cutOneofs && st.OneOf)) {
 			continue
 		}
 		keep := 1 + r.Intn(len(st.Fields)-1)
+		if forced && fmax < len(st.Fields) {
+			keep = 1 + r.Intn(fmax)
+		}
 		st.Fields = st.Fields[:keep]
 		cut = append(cut, fmt.Sprintf("%s:%d", n, keep))
 	}
